@@ -14,3 +14,6 @@ mod util;
 
 mod c00_probe;
 mod c02_credit;
+mod c07_ports;
+mod c09_wire;
+mod c99_tmp;
